@@ -155,6 +155,33 @@ def _is_ctxmgr(fn: ast.FunctionDef) -> bool:
   return reach(body)
 
 
+def _is_genhelper(fn: ast.FunctionDef) -> bool:
+  """A private generator whose yields are plain statements (`yield X`), at most three of them, with no return value,
+  no `yield from`, no nested scopes: it can be inlined into the `for` loop that consumes it."""
+  if not isinstance(fn, ast.FunctionDef):
+    return False
+  for d in fn.decorator_list:
+    if not (isinstance(d, ast.Name) and d.id in ('staticmethod', 'classmethod')):
+      return False
+  a = fn.args
+  if a.vararg or a.kwarg or a.posonlyargs:
+    return False
+  ys = [x for x in ast.walk(fn) if isinstance(x, (ast.Yield, ast.YieldFrom))]
+  if not (1 <= len(ys) <= 3) or any(isinstance(y, ast.YieldFrom) for y in ys):
+    return False
+  stmt_yields = [x.value for x in ast.walk(fn) if isinstance(x, ast.Expr) and isinstance(x.value, ast.Yield)]
+  if len(stmt_yields) != len(ys):
+    return False
+  for x in ast.walk(fn):
+    if x is not fn and isinstance(x, (ast.FunctionDef, ast.ClassDef, ast.Lambda, ast.Global, ast.Nonlocal, ast.Await)):
+      return False
+    if isinstance(x, ast.Return):
+      return False
+    if isinstance(x, ast.Try) and any(isinstance(y, ast.Yield) for y in ast.walk(x)):
+      return False
+  return True
+
+
 def unparse_dec(d: ast.AST) -> str:
   try:
     return ast.unparse(d)
@@ -399,12 +426,17 @@ class _Inliner:
     for _ in range(_MAX_PASSES):
       before = self.count
       mod_helpers = self.helpers_of_module()
+      self._gen_mod = {st.name: st for st in self.tree.body if isinstance(st, ast.FunctionDef) and self._private(st.name)
+                       and _is_genhelper(st)}
+      self._gen_meths = {}
       for st in self.tree.body:
         if isinstance(st, ast.FunctionDef):
           self._do_function(st, mod_helpers, {}, None)
         elif isinstance(st, ast.ClassDef):
           meths = {m.name: m for m in st.body if isinstance(m, ast.FunctionDef) and self._private(m.name)
                    and (_suitable(m) or _is_ctxmgr(m))}
+          self._gen_meths = {m.name: m for m in st.body if isinstance(m, ast.FunctionDef) and self._private(m.name)
+                             and _is_genhelper(m)}
           props = {}
           for m in st.body:
             if isinstance(m, ast.FunctionDef) and self._private(m.name) and len(m.decorator_list) == 1 \
@@ -536,8 +568,9 @@ class _Inliner:
       if isinstance(st, ast.FunctionDef) and st is not fn:
         # nested def (closure): its statements call the same helpers; `self` is the enclosing method's
         st.body = self._do_block(st.body, fn, mod_helpers, meths)
-      rep = self._try_inline_with(st, fn, mod_helpers, meths) if isinstance(st, ast.With) else self._try_inline(st, fn, mod_helpers, meths)
-      if rep is None and not isinstance(st, ast.With):
+      rep = self._try_inline_with(st, fn, mod_helpers, meths) if isinstance(st, ast.With) else \
+          self._try_inline_for(st, fn) if isinstance(st, ast.For) else self._try_inline(st, fn, mod_helpers, meths)
+      if rep is None and not isinstance(st, (ast.With, ast.For)):
         rep = self._hoist(st, fn, mod_helpers, meths)
       if rep is None:
         out.append(st)
@@ -651,6 +684,110 @@ class _Inliner:
       return None
     rest = self._try_inline(st2, fn, mod_helpers, meths) or self._hoist(st2, fn, mod_helpers, meths) or [st2]
     return first + rest
+
+  def _try_inline_for(self, st: ast.For, fn) -> Optional[List[ast.stmt]]:
+    """`for T in _gen(args): BODY` over a private generator helper: the generator's body with every `yield X`
+    replaced by `T = X; BODY` (BODY free of break / continue / yield, so the interleaving is exactly the iteration)."""
+    if st.orelse or not isinstance(st.iter, ast.Call):
+      return None
+    call = st.iter
+    f = call.func
+    helper, recv = None, None
+    if isinstance(f, ast.Name) and f.id in getattr(self, '_gen_mod', {}) and self._gen_mod[f.id] is not fn:
+      helper = self._gen_mod[f.id]
+    elif isinstance(f, ast.Attribute) and isinstance(f.value, ast.Name) and fn.args.args and f.value.id == fn.args.args[0].arg \
+        and f.attr in getattr(self, '_gen_meths', {}) and self._gen_meths[f.attr] is not fn:
+      helper = self._gen_meths[f.attr]
+      is_static = any(isinstance(d, ast.Name) and d.id == 'staticmethod' for d in helper.decorator_list)
+      recv = None if is_static else f.value
+    if helper is None:
+      return None
+    # break / continue binding to this loop, or a yield in the body: not expressible after splicing
+    def escapes(stmts, depth=0) -> bool:
+      for b in stmts:
+        if isinstance(b, (ast.Break, ast.Continue)) and depth == 0:
+          return True
+        if isinstance(b, (ast.FunctionDef, ast.ClassDef)):
+          continue
+        inner_depth = depth + 1 if isinstance(b, (ast.For, ast.While)) else depth
+        for fld in ('body', 'orelse', 'finalbody'):
+          blk = getattr(b, fld, None)
+          if isinstance(blk, list) and escapes(blk, inner_depth if fld == 'body' else depth):
+            return True
+        if isinstance(b, ast.Try):
+          for h in b.handlers:
+            if escapes(h.body, depth):
+              return True
+      return False
+    if escapes(st.body) or any(isinstance(x, (ast.Yield, ast.YieldFrom)) for b in st.body for x in ast.walk(b)):
+      return None
+    if any(isinstance(a, ast.Starred) for a in call.args) or any(k.arg is None for k in call.keywords):
+      return None
+    params = [a.arg for a in helper.args.args]
+    bound: Dict[str, ast.AST] = {}
+    pos = list(params)
+    if recv is not None:
+      if not pos:
+        return None
+      bound[pos.pop(0)] = recv
+    if len(call.args) > len(pos):
+      return None
+    order = []
+    for p_, a in zip(pos, call.args):
+      bound[p_] = a
+      order.append(p_)
+    for k in call.keywords:
+      if k.arg in bound or k.arg not in params + [a.arg for a in helper.args.kwonlyargs]:
+        return None
+      bound[k.arg] = k.value
+      order.append(k.arg)
+    dpos = helper.args.args[len(helper.args.args) - len(helper.args.defaults):]
+    for a, d in zip(dpos, helper.args.defaults):
+      bound.setdefault(a.arg, d)
+    if any(p_ not in bound for p_ in params):
+      return None
+    self.uid += 1
+    tag = f'{helper.name.strip("_")}{self.uid}'
+    assigned = _assigned_names(helper)
+    mapping: Dict[str, ast.AST] = {}
+    rename: Dict[str, str] = {}
+    pre: List[ast.stmt] = []
+    for p_ in order + [p_ for p_ in bound if p_ not in order]:
+      e = bound[p_]
+      if (p_ in order and not _simple(e)) or p_ in assigned:
+        nm = f'{p_}__{tag}'
+        pre.append(ast.copy_location(ast.Assign(targets=[ast.Name(id=nm, ctx=ast.Store())], value=copy.deepcopy(e)), st))
+        rename[p_] = nm
+      else:
+        mapping[p_] = e
+    for nm in assigned:
+      if nm not in rename and nm not in bound:
+        rename[nm] = f'{nm}__{tag}'
+    body = [copy.deepcopy(s_) for s_ in _strip_doc(helper.body)]
+    sub = _Subst(mapping, rename)
+    body = [sub.visit(s_) for s_ in body]
+
+    def splice(stmts: List[ast.stmt]) -> List[ast.stmt]:
+      out: List[ast.stmt] = []
+      for s_ in stmts:
+        if isinstance(s_, ast.Expr) and isinstance(s_.value, ast.Yield):
+          y = s_.value
+          out.append(ast.copy_location(ast.Assign(targets=[copy.deepcopy(st.target)],
+                                                  value=y.value if y.value is not None else ast.Constant(value=None)), st))
+          out.extend(copy.deepcopy(b) for b in st.body)
+          continue
+        for fld in ('body', 'orelse', 'finalbody'):
+          blk = getattr(s_, fld, None)
+          if isinstance(blk, list):
+            setattr(s_, fld, splice(blk))
+        out.append(s_)
+      return out
+    new = pre + splice(body)
+    for x in new:
+      ast.fix_missing_locations(x)
+    self.count += 1
+    self.names[helper.name] = self.names.get(helper.name, 0) + 1
+    return new
 
   def _try_inline_with(self, st: ast.With, fn, mod_helpers, meths) -> Optional[List[ast.stmt]]:
     """`with _helper(args) [as v]: BODY` for a private one-yield @contextmanager ->  <before-yield>; BODY; <after-yield>
